@@ -22,7 +22,13 @@ func (pass *UndiscriminatedDisjunctionToAny) Process(schemas []*ast.Schema) ([]*
 	return visitor.VisitSchemas(schemas)
 }
 
-func (pass *UndiscriminatedDisjunctionToAny) processDisjunction(_ *Visitor, schema *ast.Schema, def ast.Type) (ast.Type, error) {
+func (pass *UndiscriminatedDisjunctionToAny) processDisjunction(visitor *Visitor, schema *ast.Schema, def ast.Type) (ast.Type, error) {
+	// disjunctions nested within the branches have to be processed too
+	def, err := visitor.VisitDisjunctionBranches(schema, def)
+	if err != nil {
+		return ast.Type{}, err
+	}
+
 	disjunction := def.AsDisjunction()
 
 	// Ex: "some concrete value" | "some other value" | string
